@@ -41,7 +41,8 @@ package swagtool
 //@ modifies boxed(v)
 //@ func sortEnumValues trusted
 //@ modifies any(elems(map[string]interface{})), any(elems([]interface{}))
-//@ func ForceOrderedJSON props C08,C14
+//@ func ForceOrderedJSON props C08,C13,C14
+//@ emits orderedJSON()
 //@ modifies any(elems(map[string]interface{})), any(elems([]interface{}))
 //@ ensures implies(result1 != nil, len(result0) == 0)
 
